@@ -9,7 +9,7 @@ Steps (all in a scratch worktree of /repo under /tmp, removed afterwards):
   3. `VERIF_REPO=<worktree> tools/check <Cxx>` -> records exit code and VIOLATION lines;
   4. everything is kept under /verif/seeded/<Cxx>-<k>/ (patch.diff, demo, meta.json).
 """
-import json, os, re, shutil, subprocess, sys, time
+import tempfile, json, os, re, shutil, subprocess, sys, time
 
 VERIF = os.path.dirname(os.path.dirname(os.path.abspath(__file__)))
 ENV = dict(os.environ, GOFLAGS="-mod=mod", GOPROXY="off", GOSUMDB="off", GOTOOLCHAIN="local")
@@ -25,6 +25,17 @@ def main():
     tier = sys.argv[4] if len(sys.argv) > 4 and sys.argv[3] == "--tier" else "quick"
     checks = sys.argv[5:] or [pid]
     src = "/tmp/mut-%s/out" % pid
+    if not os.path.exists("%s/meta%s.json" % (src, k)):
+        # the author's scratch directory is gone: rebuild its content from the kept copy seeded/<id>-<k>/
+        kept = os.path.join(VERIF, "seeded", "%s-%s" % (pid, k))
+        src = tempfile.mkdtemp(prefix="seedsrc-")
+        shutil.copy(os.path.join(kept, "patch.diff"), os.path.join(src, "patch%s.diff" % k))
+        for f in os.listdir(kept):
+            if f.startswith("demo") and f.endswith(".txt"):
+                shutil.copy(os.path.join(kept, f), os.path.join(src, f[:-4]))
+        m0 = json.load(open(os.path.join(kept, "meta.json")))
+        m0.pop("confirmed_by_lead", None)
+        json.dump(m0, open(os.path.join(src, "meta%s.json" % k), "w"))
     meta = json.load(open("%s/meta%s.json" % (src, k)))
     wt = "/tmp/seed-%s-%s" % (pid, k)
     subprocess.run(["git", "-C", "/repo", "worktree", "remove", "--force", wt], capture_output=True)
